@@ -81,16 +81,40 @@ extern "C" void vp_thread1() {
   check_content(expect);
   vp_assert(m->emplace(k, k * 10), 13);
   check_content(expect | (1u << k));
-#else
+#elif MODE == 3
   {
     auto it = m->find(WK);
     vp_assert(it != m->end(), 20);
     m->erase(it);
     it.reset();
   }
+#else
+  // MODE 4: two erasures through one iterator while a writer wants to insert into the same bucket: the iterator holds the
+  // bucket exclusively, so the insertion takes effect before or after, never in between (it would be unlinked again)
+  {
+    auto it = m->find(WK);
+    vp_assert(it != m->end(), 20);
+    m->erase(it);
+    if (it != m->end()) m->erase(it);
+    it.reset();
+  }
 #endif
   vp_cover(1);
 }
+#if MODE == 4
+static bool wres;
+extern "C" void vp_thread2() { wres = m->emplace(NKEYS + 1, (NKEYS + 1) * 10); vp_cover(2); }
+extern "C" void vp_final() {
+  vp_assert(wres, 40);
+  M::accessor a; bool r = m->try_get_value(NKEYS + 1, a);
+  vp_assert(r, 41);                                     // the inserted key is not lost
+  if (r) vp_assert(*a == (NKEYS + 1) * 10, 42);
+  M::accessor b; vp_assert(!m->try_get_value(WK, b), 43);
+  int cnt = 0;
+  for (int k = 1; k <= NKEYS; ++k) { M::accessor c; if (m->try_get_value(k, c)) { vp_assert(*c == k * 10, 44); ++cnt; } }
+  vp_assert(cnt == NKEYS - 2, 45);                      // exactly two of the original keys were erased
+}
+#endif
 #if MODE == 3
 extern "C" void vp_thread2() {       // lock-free reader
   M::accessor a;
